@@ -210,6 +210,35 @@ pub fn run(out: &mut Out, thorough: bool, seed: u64) {
             prio3_level(out, &mut rng, &pools, &what, L1BoundSum::<Field128, PS>::new(3, len, chunk).unwrap(), L1BoundSum::<Field128, PM>::new(3, len, chunk).unwrap(), &[one], na, np);
         }
     }
+    // the convenience constructors of the multithreaded variants must configure the same instance as
+    // their serial twins (asymmetric parameters, so that swapped arguments show)
+    {
+        let ctx = b"ctor";
+        let nonce = [7u8; 16];
+        let cmp = |out: &mut Out, what: String, a: Result<(Vec<u8>, Vec<Vec<u8>>), ()>, b: Result<(Vec<u8>, Vec<Vec<u8>>), ()>| {
+            out.oracle(a.is_ok() && a == b, || what.clone(), || "the multithreaded constructor's instance shards differently from the serial one".into());
+            out.count("ctor-pair");
+        };
+        let enc2 = |r: Result<(prio::vdaf::prio3::Prio3PublicShare<32>, Vec<prio::vdaf::prio3::Prio3InputShare<Field128, 32>>), prio::vdaf::VdafError>| r.map(|(p, i)| (p.get_encoded().unwrap(), i.iter().map(|s| s.get_encoded().unwrap()).collect::<Vec<_>>())).map_err(|_| ());
+        for (a, b, c) in [(8usize, 3usize, 2usize), (5, 1, 4), (6, 6, 3), (9, 2, 5)] {
+            let random = rng.bytes(2 * 2 * 32);
+            // multihot: (num_buckets, max_weight, chunk_length)
+            let s = Prio3::new_multihot_count_vec(2, a, b, c).unwrap();
+            let m = Prio3::new_multihot_count_vec_multithreaded(2, a, b, c).unwrap();
+            let mut meas = vec![false; a];
+            meas[0] = true;
+            cmp(out, format!("new_multihot_count_vec({}, {}, {})", a, b, c), enc2(s.shard_with_random(ctx, &meas, &nonce, &random)), enc2(pools[1].1.install(|| m.shard_with_random(ctx, &meas, &nonce, &random))));
+            // histogram: (length, chunk_length)
+            let s = Prio3::new_histogram(2, a, c).unwrap();
+            let m = Prio3::new_histogram_multithreaded(2, a, c).unwrap();
+            cmp(out, format!("new_histogram({}, {})", a, c), enc2(s.shard_with_random(ctx, &(a - 1), &nonce, &random)), enc2(pools[1].1.install(|| m.shard_with_random(ctx, &(a - 1), &nonce, &random))));
+            // sum vec: (max_measurement, len, chunk_length)
+            let s = Prio3::new_sum_vec(2, b as u128, a, c).unwrap();
+            let m = Prio3::new_sum_vec_multithreaded(2, b as u128, a, c).unwrap();
+            let meas: Vec<u128> = (0..a).map(|i| (i % (b + 1)) as u128).collect();
+            cmp(out, format!("new_sum_vec({}, {}, {})", b, a, c), enc2(s.shard_with_random(ctx, &meas, &nonce, &random)), enc2(pools[1].1.install(|| m.shard_with_random(ctx, &meas, &nonce, &random))));
+        }
+    }
     // wire polynomials beyond the NTT's reach: the serial gadget reports an error
     let n = 1usize << 20;
     let inp: Vec<Vec<Field64>> = vec![vec![Field64::from(3); n], vec![Field64::from(5); n]];
